@@ -14,7 +14,7 @@ def cases(ctx):
     allu = [('EUR', 'kg'), ('EUR', 'g'), ('USD', 'kg'), ('USD', 'g'), ('EUR', 't'), ('USD', 't'), ('JPY', 'kg')]
     rates = [dict(uc='EUR', tc='USD', k=0, t6=_limbs(1250000)), dict(uc='USD', tc='EUR', k=0, t6=_limbs(800000)),
              dict(uc='EUR', tc='USD', k=0, t6=_limbs(1098270)), dict(uc='USD', tc='JPY', k=0, t6=_limbs(150375000)),
-             dict(uc='JPY', tc='EUR', k=2, t6=_limbs(612345))]
+             dict(uc='JPY', tc='EUR', k=2, t6=_limbs(612345)), dict(uc='EUR', tc='USD', k=0, t6=_limbs(1000000))]
     patterns = []
     for r in range(1, len(allu) + 1):
         for sub in itertools.combinations(allu, r):
@@ -41,6 +41,10 @@ def cases(ctx):
         for form in ('mul', 'div'):
             cs.append(dict(op='price_rate', form=form, kind='mul' if form != 'div' else 'div', decl=decl, r=rates[0],
                            p=dict(c='EUR', m='kg', n=3, d=1, a=moneycheck.qj(3), ismoney=False)))
+    for j, r in enumerate(rates[:3]):
+        for form in ('mul', 'rmul'):
+            for fresh in (False, True):
+                cs.append(dict(op='price_late', r=r, n=5 + j, d=2, form=form, fresh=fresh, decl=[dict(c='late', m=str(j) + form + str(fresh))]))
     return cs
 
 
